@@ -1,6 +1,6 @@
 """C11: Merkle proof checks are complete and sound (check_proof, check_block_header_proof, check_account_proof)."""
 from ..gen import cells as G
-from ..translate import arith, arith2, prooffull, cellctor
+from ..translate import arith, arith2, prooffull, cellctor, locsrc
 from ..gen import tlbvals as V
 
 SPEC = dict(
@@ -64,7 +64,14 @@ SPEC = dict(
              "(Generated/CellCtor.lean = Cell.__init__ of cell.py, proved equal to Model.construct in Proofs/SrcCellCtor.lean; srcPCell / srcPCell_eq): "
              "c11_src_binding (two trees to which the regenerated constructor assigns the same level-l hash Agree), c11_src_sound (object built by the "
              "regenerated constructor + regenerated check_proof => the proof body agrees with every tree of that hash) and c11_src_complete_ctor state "
-             "binding, soundness and completeness end to end over regenerated definitions.",
+             "binding, soundness and completeness end to end over regenerated definitions. The TL-B walk of check_account_proof "
+             "(ShardStateUnsplit.deserialize(..).accounts[0][addr].cell[0]) is evaluated on the REGENERATED parser classes of tlb/account.py / tlb/block.py "
+             "(Generated/LocateSrc.lean: ShardStateUnsplit, ShardAccounts, ShardAccount with its cell= argument kept; DepthBalanceInfo, Account, McStateExtra, "
+             "ShardIdent, CurrencyCollection ... from the C16 parser files) as Model.srcLocate; the two Boolean parameters of the hand walk become the regenerated "
+             "Account / McStateExtra parsers (srcOpaque). c11_src_walk_partial proves srcLocate = locateAccount srcOpaque on every cell that is not an ordinary "
+             "shard_state cell; the full equation (all cells) is a closed statement that every run DECIDES by evaluation on every synthetic shard state of the walk "
+             "stream together with the library's result (driver op srcloc); c11_src_account_sound_full_partial / c11_src_account_complete_full_partial restate account "
+             "soundness / completeness over the regenerated walk under that closed statement.",
         level_note='Trusted: Lean kernel; Spec/Cell.lean; the translator harness/translate/pyfunc.py (+ pyobj.py, pybytes.py, pyarith.py) and the declared reading of a '
                    'Cell object in harness/translate/prooffull.py (Cell = PCell, cell[i] = refs[i], get_hash / get_depth = CellInfo.getHash / getDepth, .data / .hash '
                    'property bodies checked against cell.py), validated against the running library whenever source or translator change; Model/Proof.lean '
@@ -72,7 +79,9 @@ SPEC = dict(
                    'functions); check_shard_proof is regenerated as well (declared reading: a BlockIdExt = its five attributes, `==` = equality of these - '
                    'checked against BlockIdExt.__eq__; Block.deserialize(..).info, ShardStateUnsplit.deserialize, .custom.shard_hashes, .get, .list, .root_hash are '
                    'parameters; validated by running the real function on constructed proof pairs with these calls stubbed); the cell constructor is the '
-                   'regenerated one (cellctor.py, design/translators-cell.md); the TL-B walk stays a hand model; '
+                   'regenerated one (cellctor.py, design/translators-cell.md); the TL-B walk (Model/Locate.lean) stays a hand model for the all-input theorems, '
+                   'tied to the regenerated parser classes (harness/translate/locsrc.py + tlbparsers*.py, reader primitives Model/TlbRd*.lean) by c11_src_walk_partial '
+                   'and by evaluation of the closed equation on every generated shard state (design/C11.md, Session 5 - locsrc); '
                    'Model/Cell.lean, Model/Locate.lean as hand transcriptions (sampled correspondence; the '
                    'raise-tests of check_proof.py themselves are regenerated from the source and proved for all values, trusting the translator '
                    'harness/translate/pyarith.py and its reading of bytes operations in lean/TonVerif/PyBytes.lean + PyBytes2.lean; what the operands '
@@ -89,7 +98,9 @@ SPEC = dict(
                  ('check_proof.py check_proof / check_block_header_proof / check_account_proof (both modes) / check_shard_proof (whole functions)->Generated/ProofFull.lean', prooffull.regenerate),
                  ('exotic.py LevelMask->Generated/LevelMask.lean', arith.regenerator('LevelMask')),
                  ('cell.py d1/d2/pruned offsets->Generated/CellArith.lean', arith.regenerator('CellArith')),
-                 ('cell.py Cell.__init__/resolve_mask/calculate_hashes/get_hash/get_depth->Generated/CellCtor.lean', cellctor.regenerate)],
+                 ('cell.py Cell.__init__/resolve_mask/calculate_hashes/get_hash/get_depth->Generated/CellCtor.lean', cellctor.regenerate),
+                 ('tlb/*.py parser classes under the TL-B walk (ShardIdent, CurrencyCollection, DepthBalanceInfo, Account, McStateExtra ...)->Generated/TlbParsers{,Tx,Blk}.lean', locsrc.regenerate_deps),
+                 ('tlb/account.py ShardAccount (cell= kept), tlb/block.py ShardAccounts, ShardStateUnsplit->Generated/LocateSrc.lean', locsrc.regenerate)],
     design_ref='DESIGN.md §6 C11',
     rule='trees (ordinary DAGs, exotic trees with library cells and inner Merkle proofs/updates, block-like shapes), random pruning sets at Merkle '
          'depth 1, proof = MPROOF cell over the pruned tree; positive stream must be accepted by check_proof/check_block_header_proof; negative '
@@ -105,6 +116,8 @@ SPEC = dict(
                   'Cell objects; Cell.from_boc and the TL-B deserialiser calls are parameters); Model/Proof.lean is proved equal to them (after fix commits 56bdc07, 3b51ac3, 83e0e94, 67bd38d); '
                   'check_shard_proof and check_account_proof(.., return_account_descr=True) are regenerated too (c11_src_shard_full, c11_src_account_descr_mode); the TL-B deserialisers they call are parameters',
                   'harness/translate/pyobj.py + cellctor.py: Cell.__init__ regenerated (Generated/CellCtor.lean) and proved equal to Model.construct (c11_src_binding / c11_src_sound are stated over it)',
+                  'harness/translate/locsrc.py (+ tlbparsers.py, tlbparsers_tx.py, tlbparsers_blk.py) and the reader primitives Model/TlbRd.lean, TlbRdTx.lean, TlbRdBlk.lean '
+                  '(hand meaning of the Slice methods incl. load_dict / load_hashmap_aug_e walks) for Model.srcLocate; Model/LocateSrc.lean: the Python glue (.accounts, [0], dict[int], .cell[0])',
                   'Model/Locate.lean mirrors ShardStateUnsplit.deserialize / load_hashmap_aug_e / parse_aug / DepthBalanceInfo / ShardAccount by hand (after f2933e1, 602ccc8); '
                   'Account.deserialize (account$1) and McStateExtra.deserialize (ordinary cell) are Boolean parameters whose verdicts the harness takes from the library',
                   'BoC decoding (Cell.from_boc) is abstracted: roots list',
@@ -1446,6 +1459,9 @@ def run_walk_case(ctx, dag, idx, kb, fkey):
                  'ShardAccounts dictionary holds under the address', inp, got, ent)
     bad_acc, bad_mc = opaque_verdicts(libs, dag)
     ctx.expect_model(f'locacct {dag_str(dag)} {idx} {kb.hex()} {bad_acc} {bad_mc}', f'{got} {ent}', fkey + ' locate')
+    # the walk on the REGENERATED parsers (Generated/LocateSrc.lean + the C16 parser files): `eq` = it agrees with the hand model on this
+    # state cell (c11_src_walk), and the located cell / "raises" verdict is the library's (translator validation of the walk)
+    ctx.expect_model(f'srcloc {dag_str(dag)} {idx} {kb.hex()}', f'eq {got}', fkey + ' srcloc')
 
 
 # ----------------------------------------------------------------------------- run / replay
@@ -1534,6 +1550,27 @@ def src_fn_search(ctx):
     return len(ctx.failures) > n0
 
 
+def src_walk_differs(ctx):
+    """Search mode only: is there a synthetic shard state (the walk stream's generator, fixed seed) on which the REGENERATED walk
+    (`srcLocate`, Generated/LocateSrc.lean) and the hand model `locateAccount srcOpaque` differ (driver op `srcloc` answers `ne`)?  The
+    differing states are instances of the walk stream, whose cases go through the account oracle (`run_account_case`: verdict known by
+    construction) and the dictionary oracle (`run_walk_case`: the library's result must be the entry the lookup-only walk finds)."""
+    import random
+    try:
+        probe = type(ctx)(ctx.prop, 'quick', ctx.seed)
+        probe._model = ctx.model
+        walk_stream(probe, random.Random(20240930))
+        lines = [p[0] for p in probe._pending if p[0].startswith('srcloc ')]
+        ans = ctx.model.run(lines)
+    except Exception as e:
+        ctx.notes.append(f'source-diff search (LocateSrc) failed: {type(e).__name__}: {e}')
+        return False
+    ne = [l for l, a in zip(lines, ans) if not a.startswith('eq')]
+    if ne:
+        ctx.notes.append(f'regenerated TL-B walk differs from the hand model on {len(ne)} of {len(lines)} synthetic shard states, e.g. {ne[0][:160]}')
+    return bool(ne)
+
+
 def src_families(ctx, rng):
     """every root-cell family on Merkle proofs over unpruned chains of depth 0..9, and block-like trees with honest / forged state updates"""
     for depth in range(0, 10):
@@ -1583,6 +1620,8 @@ def run(ctx):
         streams = [account_stream, shard_stream, walk_stream, generic_streams, extra_stream]     # a test of check_account_proof differs: look there first
     if ctx.search:                   # the shard oracle is cheap (< 1 s): first when an obligation is broken
         streams = [shard_stream] + [st for st in streams if st is not shard_stream]
+        if src_walk_differs(ctx):    # the regenerated TL-B walk differs from the hand model: the walk / account oracles first
+            streams = [walk_stream, account_stream] + [st for st in streams if st not in (walk_stream, account_stream)]
     for stream in streams:
         stream(ctx, rng)
         if ctx.search and ctx.failures:
